@@ -151,3 +151,6 @@ pub proof fn lemma_byte_offset_monotone(text: Seq<char>, a: int, b: int)
     assert(text.take(text.len() as int) =~= text);
 }
 pub axiom fn axiom_str_fits_usize(s: &str) ensures byte_len(s@) <= isize::MAX;
+// R14: a trim (trim_start_matches, trim, ..) applied to the raw slice: some sub-slice of it, nothing more is known
+#[verifier::external_body]
+pub fn str_some_trimmed<'a>(s: &'a str) -> (r: &'a str) ensures exists|a: int, b: int| 0 <= a <= b <= s@.len() && r@ == s@.subrange(a, b) { unimplemented!() }
